@@ -496,6 +496,7 @@ func run(c *core.Ctx) {
 		switch {
 		case j%3 == 0 && (j/3)%4 == 3:
 			runSharedGraph(c)
+			runJoinHooks(c, j/12)
 		case j%3 == 0:
 			runRead(c, readKinds[(j/3)%len(readKinds)])
 		default:
